@@ -95,6 +95,8 @@ type Node struct {
 	// scripting knobs
 	DisconnectAtMsg   int  // close the FIRST connection when its n-th message arrives (0 = never)
 	LoseFirstN        int  // DisconnectAtMsg / CloseAfterVersion apply to the first n connections instead of the first only (0 = 1)
+	RestartOnDrop     bool // the scripted loss of a connection (DisconnectAtMsg, DropAfterHeight) takes all of the node's open connections with it: the node restarts
+	refusedDials      int  // dials the rig refused on the node's behalf (MaxLive, MaxAccepts)
 	UnknownFirst      bool // right after the handshake the node sends a message with a command the service does not know (real nodes do)
 	PushOnHandshake   bool // the unsolicited pushes (PushAfterReply, PushSeq) go out as soon as the handshake is complete instead of after the first getheaders answer
 	VersionTwice      bool // on the first connection(s) the node answers the service's version with its own version message twice (and no verack)
@@ -314,6 +316,26 @@ func (n *Node) AcceptsExhausted() bool {
 	return n.MaxAccepts > 0 && n.accepted >= n.MaxAccepts
 }
 
+// restartIfScripted closes every other open connection of the node as well (RestartOnDrop).
+func (n *Node) restartIfScripted(first *Conn) {
+	n.mu.Lock()
+	all := n.RestartOnDrop
+	n.mu.Unlock()
+	if !all {
+		return
+	}
+	for _, o := range n.Open() {
+		if o != first {
+			o.Close("scripted: the node restarts, all its connections go away")
+		}
+	}
+}
+
+func (n *Node) noteRefusedDial() { n.mu.Lock(); n.refusedDials++; n.mu.Unlock() }
+
+// RefusedDials is the number of dials the rig refused on this node's behalf.
+func (n *Node) RefusedDials() int { n.mu.Lock(); defer n.mu.Unlock(); return n.refusedDials }
+
 // Reserve grants one more connection if MaxLive allows it.
 func (n *Node) Reserve() bool {
 	n.mu.Lock()
@@ -441,6 +463,7 @@ func (c *Conn) loop() {
 		n.mu.Unlock()
 		if early && discAt > 0 && cnt >= discAt {
 			c.Close(fmt.Sprintf("scripted disconnect at message %d", cnt))
+			n.restartIfScripted(c)
 			return
 		}
 		stalled := silent || (stallAfter > 0 && cnt > stallAfter)
@@ -523,6 +546,7 @@ func (c *Conn) loop() {
 			n.mu.Unlock()
 			if dropNow {
 				c.Close(fmt.Sprintf("scripted disconnect right after the reply that contains height %d", n.DropAfterHeight))
+				n.restartIfScripted(c)
 				return
 			}
 			if !c.pushNow() {
